@@ -635,6 +635,10 @@ func (in *instr) stmt(s ast.Stmt, withY bool) []ast.Stmt {
 			in.exprs(st.Post)
 		}
 		in.block(st.Body)
+		// every iteration of a for loop counts against the spin guard: a loop that never reaches a scheduling
+		// point (a livelock, an unbounded allocation loop) ends in a reported panic instead of a stuck worker
+		in.used = true
+		st.Body.List = append([]ast.Stmt{&ast.ExprStmt{X: simCall("Spin")}}, st.Body.List...)
 
 	case *ast.RangeStmt:
 		if in.isChan(st.X) {
